@@ -1,3 +1,4 @@
+import os
 FIELDS = "aB bpos ainv sim noSimBad noUaf noDfree noPanic idleN cons0 alc pre pre0 newc preA preR nb0 nb1 nb2 drp dfl geo fresh tw nbv cl1 cl2 cl3 pset psv pcas cAl cWt cLk cTl lnk rdyR valR hd hb1 hb2 hb3 lHb lPi lCi lFast lStore lCopy lRd lHead dE dF1 df2a df2b df3 oldR1 oldR2 liveR".split()
 HN = {f:f for f in FIELDS}
 HN.update({'noSimBad':'nSB','noUaf':'nUaf','noDfree':'nDf','noPanic':'nPn'})
@@ -146,4 +147,4 @@ macro "bfinNoSlot" tt:term : tactic => `(tactic|
 
 end MayVerif.Mpsc
 """
-open('/tmp/wp_mpsc2/lean_m/MayVerif/Proof/Queue/Mpsc/Tac.lean','w').write(src)
+open(os.path.join(os.path.dirname(os.path.dirname(os.path.abspath(__file__))), 'Tac.lean'),'w').write(src)
